@@ -627,7 +627,7 @@ pub fn run_chain<S: Crystal>(initial: S, chain: &[Op], monitor: Box<dyn Monitor<
                 // the monitors through `before`/`after` of this boundary)
                 let before = cur.clone();
                 let clone = cur.clone();
-                let mut cfg = OptCfg { steps: 50, inner: 50, kt_start: 0.5, kt_finish: None, kt_ratio: Some(0.0), max_step: 0.2, convergence: None, seed: k as u64 };
+                let mut cfg = OptCfg { steps: 50, inner: 50, kt_start: 0.5, kt_finish: None, kt_ratio: Some(0.0), max_step: 0.2, convergence: None, seed: k as u64, order: 0, prior: None };
                 cfg.seed = k as u64 + 17;
                 let quiet: Arc<Mutex<Sink<S>>> = Arc::new(Mutex::new(Sink {
                     monitor: Box::new(NoMonitor),
@@ -774,6 +774,8 @@ pub fn gen_stage_cfg(rng: &mut Rng, max_steps: u64, cli_like: bool) -> OptCfg {
         max_step: *rng.pick(&[1e-3, 0.01, 0.01, 0.1, 0.5, 1.0, 1.0, 2.5, 5.0]),
         convergence: *rng.pick(&[None, None, None, Some(1e-6)]),
         seed: rng.below(1 << 32),
+        order: if rng.chance(0.3) { 1 + rng.below(1 << 20) } else { 0 },
+        prior: if rng.chance(0.15) { Some((*rng.pick(&[1u64, 10, 100_000]), *rng.pick(&[1u64, 7, 100_000]))) } else { None },
     }
 }
 
